@@ -1309,7 +1309,10 @@ start_parameter (GMarkupParseContext *context,
   else
     param->nullable = FALSE;
 
-  if (allow_none && strcmp (allow_none, "1") == 0)
+  /* allow-none is the legacy spelling; it only decides when neither of the
+   * attributes that replaced it is present */
+  if (allow_none && strcmp (allow_none, "1") == 0 &&
+      nullable == NULL && optional == NULL)
     {
       if (param->out)
         param->optional = TRUE;
